@@ -27,7 +27,7 @@ META = {
         "thread stress run (real lock, switch interval 1e-6 s) complements it. Non-trivial: some thread was blocked "
         "on the class lock or >= 2 context switches happened while levels were being built. Distinct = distinct "
         "executed schedule trace (hash of the sequence of thread ids actually run) per case."
-        " Finite classes with a short query parked in its first lines while another thread builds past the last non-empty level."
+        " Finite classes with a short query parked in its first lines while another thread builds past the last non-empty level. Publication-point schedules: the building thread is parked at the first scheduling point after the list of levels grew for the k-th time."
     ),
     "assumptions": [
         "schedules are sampled, not enumerated; preemption granularity is one source line of permset.py (library code called from there runs atomically)",
